@@ -34,7 +34,7 @@ Definition rd_le (z : list N) (off : Z) (k : nat) : N :=
    varintExternalCopyToEncodingLittleEndian_ copies the low `encoding` bytes
    of the uint64_t.  Widths 9..16 would read past the 8-byte source, any
    other width hits assert(NULL)/__builtin_unreachable: None. *)
-Definition ext_put_fixed (v w : N) : option (list N) :=
+Definition split_ext_put_fixed (v w : N) : option (list N) :=
   let v := u64 v in
   match w with
   | 1 => Some (le_bytes 1 v)
@@ -53,13 +53,13 @@ Definition ext_put_fixed_quick_medium (v w : N) : option (list N) :=
   match w with
   | 3 => Some [N.land v 255; N.land (shr v 8) 255; N.land (shr v 16) 255]
   | 2 => Some [N.land v 255; N.land (shr v 8) 255]
-  | _ => ext_put_fixed v w
+  | _ => split_ext_put_fixed v w
   end.
 
 (* varintExternalGet(p, encoding), little-endian host: `encoding` bytes are
    copied into a zeroed uint64_t.  Widths 9..16 write past the 8-byte
    result, other widths hit assert(NULL)/__builtin_unreachable: None. *)
-Definition ext_get (z : list N) (off : Z) (w : N) : option N :=
+Definition split_ext_get (z : list N) (off : Z) (w : N) : option N :=
   match w with
   | 1 => Some (rd_le z off 1)
   | 2 => Some (rd_le z off 2)
@@ -78,7 +78,7 @@ Definition ext_get_quick_medium (z : list N) (off : Z) (w : N) : option N :=
   match w with
   | 3 => Some (N.lor (N.lor (shl64 (b 2%Z) 16) (shl64 (b 1%Z) 8)) (b 0%Z))
   | 2 => Some (N.lor (shl64 (b 1%Z) 8) (b 0%Z))
-  | _ => ext_get z off w
+  | _ => split_ext_get z off w
   end.
 
 (* ------------------------------------------------------------------ *)
